@@ -413,6 +413,10 @@ func fastqDrive(args []string) error {
 		if aligned > 0 { // (the whole file is read at once: a large buffer is refilled in the middle of a record)
 			readDelivery = 0
 		}
+		if long > 100000 && readDelivery != 0 { // (bufio.Scanner re-scans its whole buffer after every Read: byte-wise delivery of a
+			// multi-megabyte line is quadratic - in the standard library, not in the code under test)
+			readDelivery = 3
+		}
 		emitRead("own-writer", own, 0)
 		if aligned > 0 {
 			// (hundreds of records: no per-record corruptions here; one cut in the aligned record's neighbourhood)
